@@ -1957,7 +1957,63 @@ def rule_concat(repo):
     return r
 
 
-RULES = [rule_traversal, rule_leaf, rule_width, rule_mirror, rule_eqhash, rule_init, rule_wiring, rule_concat]
+def rule_cache(repo):
+    """The class cache may only merge declarations whose generated methods are identical."""
+    r = RuleResult('R-C06-cache', "two struct declarations share a cached class only if name, ORDERED (field, type) list and options "
+                                  "are equal -- field order determines the packed layout")
+    m = repo.mod(BS)
+    f = m.get_func('_process_class')
+    hs = [s for s in ast.walk(f) if isinstance(s, ast.Assign) and isinstance(s.value, ast.Call) and norm(s.value.func) == 'hash'
+          and any(norm(t).endswith('_hash') for t in s.targets)]
+    if len(hs) != 1 or not isinstance(hs[0].value.args[0], ast.Tuple):
+        raise AnalysisError("anchor vanished: bitstruct class-cache key in _process_class")
+    key = hs[0].value.args[0]
+    elts = [norm(e) for e in key.elts]
+    cons = 'cache key = hash((' + ', '.join(elts) + '))'
+    # which dict holds the (name -> hashable type) items, filled in declaration order
+    ordered = None
+    for e in key.elts:
+        inner = e.value if isinstance(e, ast.Starred) else e
+        txt = norm(inner)
+        if '.items()' in txt:
+            wrappers = []
+            cur = inner
+            while isinstance(cur, ast.Call) and not norm(cur).endswith('.items()'):
+                wrappers.append(norm(cur.func))
+                cur = cur.args[0] if cur.args else cur
+            if any(w in ('frozenset', 'set', 'dict', 'sorted') for w in wrappers):
+                ordered = False
+            else:
+                ordered = norm(cur)[:-len('.items()')]
+    flags = {'add_init', 'add_str', 'add_repr', 'add_hash'}
+    if ordered is None or ordered is False:
+        r.bad(m, '_process_class', cons, "the cache key does not contain the ordered (field, type) sequence: a second declaration with the "
+              "same name and the same fields in another order gets the first declaration's class (its layout and positional constructor)", hs[0].lineno)
+    elif 'cls.__name__' not in elts:
+        r.bad(m, '_process_class', cons, "the class name is not part of the cache key", hs[0].lineno)
+    elif not flags <= set(elts):
+        r.bad(m, '_process_class', cons, f"options {sorted(flags - set(elts))} are not part of the cache key", hs[0].lineno)
+    else:
+        # the hashed dict is filled for every annotation, in the annotation loop, with the list-to-tuple converted type
+        fill = [s for s in ast.walk(f) if isinstance(s, ast.Assign) and isinstance(s.targets[0], ast.Subscript)
+                and norm(s.targets[0].value) == ordered]
+        ok = len(fill) == 1
+        if ok:
+            lp = fill[0]
+            while lp is not None and not isinstance(lp, ast.For):
+                lp = getattr(lp, '_parent', None)
+            ok = lp is not None and norm(lp.iter).endswith('.items()') and not any(isinstance(x, (ast.Continue, ast.Break)) for x in ast.walk(lp)) \
+                and norm(fill[0].targets[0].slice) == norm(lp.target.elts[0]) and norm(lp.target.elts[1]) in norm(fill[0].value)
+        (r.ok if ok else r.bad)(m, '_process_class', cons, *([] if ok else ["the hashed field table is not filled for every annotated field", hs[0].lineno]))
+    # hit path returns the cached class; miss path stores before generating
+    hit = [s for s in ast.walk(f) if isinstance(s, ast.If) and '_bitstruct_hash_cache' in norm(s.test) and ' in ' in norm(s.test)]
+    ok = len(hit) == 1 and any(isinstance(x, ast.Return) and '_bitstruct_hash_cache[' in norm(x.value) for x in hit[0].body)
+    (r.ok if ok else r.bad)(m, '_process_class', 'cache hit returns the cached class', *([] if ok else ["cache lookup shape changed", f.lineno]))
+    r.require_floor(2)
+    return r
+
+
+RULES = [rule_traversal, rule_leaf, rule_width, rule_mirror, rule_eqhash, rule_init, rule_wiring, rule_concat, rule_cache]
 
 
 # ---------------------------------------------------------------------------
@@ -1967,6 +2023,8 @@ def _m(name, old, new, rule=None, file=BS, count=1):
 
 
 MUTANTS = [
+    _m('cache-key-unordered', "hash( (cls.__name__, *tuple(hashable_fields.items()),", "hash( (cls.__name__, frozenset(hashable_fields.items()),", 'R-C06-cache'),
+    _m('cache-key-no-flags', "                             add_init, add_str, add_repr, add_hash) )", "                             add_init) )", 'R-C06-cache'),
     # --- layout direction / mirror
     _m('to-bits-list-ascending', "for i in reversed(range(len(type_))):", "for i in range(len(type_)):", 'R-C06-traversal'),
     _m('from-bits-list-not-reversed', """[ f"[{','.join(reversed(from_strs))}]" ]""", """[ f"[{','.join(from_strs)}]" ]""",
